@@ -52,6 +52,8 @@ pub fn fn_bases() -> Vec<Base> {
         mk("fn+global-init", r#"(global $gf funcref (ref.func $l1)) (global $gf2 (mut funcref) (ref.func $fi1))"#),
         mk("fn+elem-expr", r#"(elem (i32.const 4) funcref (ref.func $l2) (ref.func $fi1)) (elem funcref (ref.func $l1) (ref.null func))"#),
         mk("fn+table-init", r#"(table $t2 2 funcref (ref.func $l1))"#),
+        // expression segments and a table initialiser of a concrete reference type
+        mk("fn+elem-typed", r#"(table $t3 4 (ref null $v)) (elem (table $t3) (i32.const 0) (ref null $v) (ref.func $l2) (ref.func $fi1)) (elem (ref null $v) (ref.func $l1) (ref.null $v)) (table $t4 2 (ref null $v) (ref.func $l1))"#),
         Base::from_wat(
             "fn-no-imports",
             r#"(module (type $v (func)) (table 4 funcref)
@@ -148,6 +150,25 @@ pub fn global_bases() -> Vec<Base> {
               (func $l1 (type $v) (i32.const 0x5F000001) drop (i32.const 0x51000001) drop (global.get $gi0) drop))"#,
             false,
         ),
+        // globals imported behind imports of other kinds (import position != global index)
+        Base::from_wat(
+            "gl-mixed-imports",
+            r#"(module (type $v (func))
+              (import "env" "f0" (func $f0 (type $v)))
+              (import "env" "gi0" (global $gi0 i32))
+              (import "env" "m0" (memory 1))
+              (import "env" "gi1" (global $gi1 (mut i32)))
+              (import "env" "t0" (table 2 funcref))
+              (import "env" "gspare" (global $gspare i32))
+              (global $g0 (mut i32) (i32.const 0x60000000)) (global $g1 i32 (i32.const 0x60000001))
+              (func $l0 (type $v) (i32.const 0x5F000000) drop
+                 (i32.const 0x51000000) drop (global.get $gi0) drop
+                 (i32.const 0x51000001) drop (global.get $g1) drop
+                 (i32.const 0) (i32.const 0x51000002) drop (global.set $gi1)
+                 (i32.const 0) (i32.const 0x51000003) drop (global.set $g0))
+              (export "e_gi1" (global $gi1)) (export "e_g1" (global $g1)))"#,
+            false,
+        ),
         Base::from_wat(
             "gl-imports-only",
             r#"(module (type $v (func)) (import "env" "gi0" (global $gi0 i32)) (import "env" "gi1" (global $gi1 (mut i32))) (import "env" "gspare" (global $gspare i32))
@@ -227,6 +248,26 @@ pub fn mem_bases() -> Vec<Base> {
             r#"(module (type $v (func)) (memory $m0 16) (memory $m1 17) (memory $mspare 18)
               (func $l0 (type $v) (i32.const 0x5F000000) drop (i32.const 0) (i32.const 0x51000000) drop (i32.load $m1) drop (i32.const 0x51000001) drop (memory.size $m0) drop)
               (export "e_m1" (memory $m1)) (data (memory $m1) (i32.const 0) "x"))"#,
+            true,
+        ),
+        // memories imported behind imports of other kinds (import position != memory index)
+        Base::from_wat(
+            "mem-mixed-imports",
+            r#"(module (type $v (func))
+              (import "env" "g0" (global i32))
+              (import "env" "mi0" (memory $mi0 1))
+              (import "env" "f0" (func (type $v)))
+              (import "env" "mi1" (memory $mi1 2))
+              (import "env" "t0" (table 2 funcref))
+              (import "env" "mspare" (memory $mspare 3))
+              (memory $m0 16) (memory $m1 17)
+              (func $l0 (type $v) (i32.const 0x5F000000) drop
+                 (i32.const 0) (i32.const 0x51000000) drop (i32.load $mi0) drop
+                 (i32.const 0) (i32.const 0x51000001) drop (i32.load $mi1) drop
+                 (i32.const 0) (i32.const 0x51000002) drop (i32.load $m1) drop
+                 (i32.const 0x51000003) drop (memory.size $m0) drop)
+              (export "e_mi1" (memory $mi1)) (export "e_m1" (memory $m1))
+              (data (memory $mi1) (i32.const 0) "mi1") (data (memory $m0) (i32.const 4) "m0"))"#,
             true,
         ),
         // exactly one imported and one local memory
@@ -312,6 +353,10 @@ pub fn fn_alphabet(deep_inject: bool) -> impl Fn(&Model) -> Vec<Op> + Sync {
             targets.push(n);
         }
         let targets = pick(targets);
+        if m.encodes == 0 {
+            ops.push(Op::EncodeNow);
+            ops.push(Op::PullNow);
+        }
         ops.push(Op::AddLocalFunc { calls: None });
         for t in targets.iter().take(2) {
             ops.push(Op::AddLocalFunc { calls: Some(*t) });
@@ -373,6 +418,10 @@ pub fn global_alphabet() -> impl Fn(&Model) -> Vec<Op> + Sync {
             }
         }
         ops.push(Op::AddImportedGlobal);
+        if m.encodes == 0 {
+            ops.push(Op::EncodeNow);
+            ops.push(Op::PullNow);
+        }
         for g in live.iter() {
             ops.push(Op::DeleteGlobal(g.handle));
         }
@@ -416,6 +465,10 @@ pub fn global_alphabet() -> impl Fn(&Model) -> Vec<Op> + Sync {
 pub fn mem_alphabet() -> impl Fn(&Model) -> Vec<Op> + Sync {
     move |m: &Model| {
         let mut ops = vec![Op::AddLocalMem, Op::AddImportMem];
+        if m.encodes == 0 {
+            ops.push(Op::EncodeNow);
+            ops.push(Op::PullNow);
+        }
         let live: Vec<&MMem> = m.mems.iter().filter(|g| g.live).collect();
         for g in live.iter() {
             ops.push(Op::DeleteMem(g.handle));
